@@ -62,6 +62,19 @@ def run(ctx, scale=1):
         nt = rng.choice([4, 8, 16])
         soaks.append(("cold:%d" % nt, [[rng.choice(calls) for _ in range(4)] for _ in range(nt)], False))
 
+    # first use of every parser (cold start) while another thread formats trees with bare names: the keyword probe of
+    # format runs the shared grammar, a parser build pushes the engine's global whitespace stack
+    fmt_calls = [c for c in calls if c["fn"] == "format"] or [{"fn": "format", "tree": {"select": {"value": "a"}, "from": "order"}}]
+    builds = [c15.call(fn, "select 1", **({"all_columns": ac} if ac else {})) for fn in c15.FNS for ac in (None, "*")]
+    for c in builds:
+        k = json.dumps(c, sort_keys=True)
+        if k not in expected:
+            expected[k] = C.cdump(c15.run_history([c])[0])
+    for rep_i in range((3 if ctx.quick else 20) * scale):
+        order = list(builds)
+        rng.shuffle(order)
+        soaks.append(("cold-build-vs-format", [[rng.choice(fmt_calls) for _ in range(60)], order] + ([[rng.choice(fmt_calls) for _ in range(60)]] if rep_i % 2 else []), False))
+
     results = c15.pmap(lambda s: run_threads(s[1], s[2]), soaks, n=6)
     for (name, progs, warm), outs in zip(soaks, results):
         rep.count("soak", name.split(":")[0] + (":warm" if warm else ":cold"))
